@@ -315,7 +315,7 @@ class SuperOperator(BasisManaged):
             for a in range(dim):
                 for b in range(dim):
                     self._data[a,b,:,:] = \
-                    numpy.dot(S1,numpy.dot(self._data[a,b,:,:],SS))
+                    numpy.dot(SS.T,numpy.dot(self._data[a,b,:,:],S1.T))
                     
         #
         # Larger dimension means more superoperators or time dependence
@@ -331,5 +331,5 @@ class SuperOperator(BasisManaged):
                 for a in range(dim):
                     for b in range(dim):
                         self._data[tt,a,b,:,:] = \
-                            numpy.dot(S1,numpy.dot(self._data[tt,a,b,:,:],SS))            
+                            numpy.dot(SS.T,numpy.dot(self._data[tt,a,b,:,:],S1.T))            
     
